@@ -5,7 +5,7 @@ plus the property oracles evaluated directly on the implementation."""
 import numpy as np
 
 from . import storeops as so
-from .common import bits, f2b, unbits
+from .common import bits, f2b, unbits  # noqa: F401
 from .qc import DensityMatrix, torch
 
 FILES = [
@@ -18,17 +18,25 @@ FILES = [
     "qucumber/utils/gradients_utils.py",
 ]
 REQUIRED_THEOREMS = ["C20_module", "C20_no_alias", "C20_sizes", "C20_reinit", "C20_module_ctor", "C20_init_module", "C20_fit_guard",
-                     "C20_phase_aux_bias_zero"]
+                     "C20_phase_aux_bias_zero", "C20_phase_aux_grad_zero", "C20_phase_aux_bias_zero_any_rule", "C20_phase_aux_bias_zero_torch_rules",
+                     "C20_phase_aux_bias_unused"]
 EXTRA_TRUSTED = [
-    "torch.optim.SGD / Adam follow the scalar update rules of QV.Model.PhaseAux (checked numerically on random gradient sequences, rtol 1e-6)",
+    "torch.optim.SGD / Adam / AdamW / Adadelta / Adagrad / RMSprop / Adamax / NAdam follow the scalar update rules of QV.Model.PhaseAux / QV.Model.Optim "
+    "(checked numerically on random gradient sequences with a changing learning rate, rtol 1e-6; NAdam 1e-4 because torch keeps mu_product in float32); "
+    "RAdam, Rprop, ASGD and the foreach variants are exercised by real fits only (no Lean rule)",
     "storage identity observed through data_ptr() with every observed tensor kept alive; contents through byte hashes",
 ]
 RULE = ("case = random history (<= 12 ops quick / <= 30 thorough) of: construct from sizes (num_hidden/num_aux None, 0 or explicit), "
         "create RBM module (zero_weights True / False / not passed; num_hidden/num_aux None, 0 or explicit), module.initialize_parameters("
         "zero_weights True / False / not passed), write into module (non-zero biases), construct from module (3 state types, incl. BinaryRBM -> DensityMatrix), external "
-        "in-place write into ONE network, fit with bases (SGD, SGD+momentum+weight-decay, Nesterov, Adam, Adam+weight-decay), fit without bases, "
+        "in-place write into ONE network, fit with bases (24 optimizer settings over SGD, Adam, AdamW, Adadelta, Adagrad, RMSprop, Adamax, NAdam, RAdam, "
+        "Rprop, ASGD incl. amsgrad / maximize / decoupled decay / foreach, with or without a StepLR / ExponentialLR scheduler; a callback inspects the "
+        "phase aux bias after EVERY batch; one fixed history trains a mixed state once with every setting), fit without bases (must be refused — any "
+        "exception — with parameters, storages, callback events, torch RNG state, stop flag, data and bases all unchanged), "
         "reinitialize_parameters (often followed by a fit), save/load/autoload; the 'random' weights the model is given are recomputed "
-        "independently (N(0,1)/sqrt(n) from torch's generator state before the op), never read from the implementation; identities (data_ptr classes), shapes, tokens, error kinds compared exactly with the model "
+        "independently (N(0,1)/sqrt(n) from torch's generator state before the op) but only compared as an AUXILIARY point (how the random stream is consumed "
+        "is not part of the property); the property-level weight oracles are effect oracles (fresh storage, not all-zero unless zero_weights was passed "
+        "to THIS call, different from the previous values and from the other network's); identities (data_ptr classes), shapes, tokens, refusal (not the exception type) compared exactly with the model "
         "after every op; plus gradient-row and optimizer-rule cases. non-trivial iff the history contains a module-built or reinitialised "
         "two-network state that is subsequently written or trained; distinct by hash of the plan")
 
@@ -76,8 +84,6 @@ def gen_plan(rng, maxlen):
             ms = rng.choice(sorted(modules))
             k = modules[ms]
             kind2 = rng.choice(["pos", "cplx"]) if k == "binary" else "dens"
-            if k == "binary" and rng.random() < 0.12:
-                kind2 = "dens"  # malformed: a BinaryRBM has no num_aux
             s = rng.randrange(3)
             plan.append({"t": "constructFrom", "slot": s, "kind": kind2, "mslot": ms, "ud": rng.choice([None, ["S"]]) if kind2 != "pos" else None})
             if not (k == "binary" and kind2 == "dens"):
@@ -94,8 +100,11 @@ def gen_plan(rng, maxlen):
             # module.initialize_parameters([zero_weights=...]) on a module the caller holds (possibly the amplitude network of a state)
             plan.append({"t": "initModule", "mslot": rng.choice(sorted(modules)), "zw": rng.choice([None, None, True, False])})
         elif r < 0.76:
-            plan.append({"t": "train", "slot": slot, "bases": True, "opt": rng.choice(sorted(so.OPTIMS)), "epochs": rng.choice([1, 2, 3]),
-                         "lr": rng.choice([0.05, 0.5])})
+            tr = {"t": "train", "slot": slot, "bases": True, "opt": rng.choice(sorted(so.OPTIMS)), "epochs": rng.choice([1, 2, 3]),
+                  "lr": rng.choice([0.05, 0.5])}
+            if rng.random() < 0.3:
+                tr["sched"] = rng.choice(sorted(so.SCHEDULERS))   # the learning rate changes between epochs
+            plan.append(tr)
         elif r < 0.83:
             # the refusal must not depend on the stop flag left behind by an earlier (stopped) run
             plan.append({"t": "train", "slot": slot, "bases": False, "opt": "sgd", "epochs": 1, "stopped": rng.random() < 0.5})
@@ -155,6 +164,11 @@ def weights_random(net):
     return all(bool(torch.any(p != 0)) for k, p in net.named_parameters() if k.startswith("weights") and p.numel() > 0)
 
 
+def weights_changed(net, before):
+    """every non-empty weight matrix differs from its previous value (a redraw, not a no-op)"""
+    return all(not torch.equal(p.detach(), before[k]) for k, p in net.named_parameters() if k.startswith("weights") and p.numel() > 0)
+
+
 def biases_zero(net):
     return all(bool(torch.all(p == 0)) for k, p in net.named_parameters() if k.endswith("bias"))
 
@@ -166,6 +180,7 @@ class Hooks:
         self.seen_ptrs = set()
         self.interesting = set()  # slots holding a module-built / reinitialised two-network state
         self.nontrivial = False
+        self.batch_aux = []       # (epoch, batch, max |phase aux_bias|) seen by a callback at every on_batch_end of the current fit
 
     def theorem(self, op, comp):
         return {"construct": "C20_sizes", "constructFrom": "C20_module", "write": "C20_no_alias", "writeModule": "C20_no_alias",
@@ -175,9 +190,20 @@ class Hooks:
     def cs(self, op):
         return {"plan": self.case["plan"], "tseed": self.case["tseed"], "op": op}
 
+    def stream_point(self, real, nets, cs, what):
+        """AUXILIARY correspondence: the weights are bit for bit the next N(0,1)/sqrt(num_visible) draws of torch's global generator, network
+        by network, W before U (`storeops.ref_draws`). The property only says the weights are random; an implementation that consumes
+        the stream differently breaks this point (-> `no-failing-input-found`), never a property-level oracle."""
+        ok = all(weights_are(net, real.last_ref[j]) for j, net in enumerate(nets))
+        self.ctx.point(f"{what}: weights == torch generator stream (randn/sqrt(n), W then U, networks in order)", "aux", ok, True, cs, exact=True,
+                       sig=f"{what}/generator-stream")
+
     def before(self, real, op):
         t = op["t"]
         pre = {}
+        if t == "train":
+            self.batch_aux = []
+            real.extra_callbacks = [self.batch_probe]
         if t in ("write", "train", "reinit"):
             st = real.models[op["slot"]]
             pre["nets"] = {n: net_snap(getattr(st, n)) for n in st.networks}
@@ -188,6 +214,7 @@ class Hooks:
         if t == "initModule":
             mod = real.modules[op["mslot"]]
             pre["shapes"] = shapes(mod)
+            pre["module_w"] = net_snap(mod)
             pre["others"] = {(s, n): net_snap(getattr(st, n)) for s, st in real.models.items() for n in st.networks
                              if getattr(st, n) is not mod}
         for st in real.models.values():
@@ -196,6 +223,16 @@ class Hooks:
         for m in real.modules.values():
             self.seen_ptrs.update(ptrs(m))
         return pre
+
+    def batch_probe(self, st):
+        """a callback that looks at the phase network's auxiliary bias after EVERY batch ("throughout training")"""
+        rec = self.batch_aux
+
+        class P(so.CallbackBase):
+            def on_batch_end(self, s, ep, b):
+                if isinstance(s, DensityMatrix):
+                    rec.append((ep, b, float(s.rbm_ph.aux_bias.abs().max()) if s.rbm_ph.aux_bias.numel() else 0.0))
+        return P()
 
     def after(self, real, op, pre, err, w):
         ctx, t = self.ctx, op["t"]
@@ -215,36 +252,39 @@ class Hooks:
                 ok = ok and st.rbm_am is not st.rbm_ph and not (set(a) & set(b))
                 ok = ok and all(not torch.equal(p, q) for (k, p), (_, q) in zip(st.rbm_am.named_parameters(), st.rbm_ph.named_parameters())
                                 if k.startswith("weights") and p.numel() > 0)
-            ok = ok and all(weights_are(getattr(st, n), real.last_ref[j]) for j, n in enumerate(st.networks))
             ctx.oracle("sizes branch: requested/defaulted shapes, random weights, zero biases, independent networks", ok, cs,
                        detail={"shapes": {n: shapes(getattr(st, n)) for n in st.networks}, "expected": exp}, sig="construct/sizes", theorem="C20_sizes")
+            self.stream_point(real, [getattr(st, n) for n in st.networks], cs, "construct")
         if t == "mkModule" and err is None:
             mod = real.modules[op["mslot"]]
             zw = bool(op.get("zw", False))
             exp = expected_shapes("dens" if op["k"] == "purif" else "pos", op["nv"], op["nh"], op["na"])
             ok = shapes(mod) == exp and biases_zero(mod) and order_ok(mod) and not (set(ptrs(mod)) & self.seen_ptrs)
-            ok = ok and (all(bool(torch.all(p == 0)) for k, p in mod.named_parameters()) if zw
-                         else weights_are(mod, real.last_ref[0]) and weights_random(mod))
-            ctx.oracle("RBM constructor: requested/defaulted shapes, zero biases, weights drawn N(0,1)/sqrt(n) (all zero iff zero_weights=True)",
+            ok = ok and (all(bool(torch.all(p == 0)) for k, p in mod.named_parameters()) if zw else weights_random(mod))
+            ctx.oracle("RBM constructor: requested/defaulted shapes, zero biases, random weights (all zero iff zero_weights=True)",
                        ok, cs, detail={"shapes": shapes(mod), "expected": exp, "zero_weights": zw}, sig="mkModule/ctor", theorem="C20_module_ctor")
+            if not zw:
+                self.stream_point(real, [mod], cs, "mkModule")
             ctx.count(f"mkModule_zw={op.get('zw')}")
         if t == "initModule" and err is None:
             mod = real.modules[op["mslot"]]
             zw = op.get("zw")
             ok = shapes(mod) == pre["shapes"] and biases_zero(mod) and order_ok(mod) and not (set(ptrs(mod)) & self.seen_ptrs)
             ok = ok and (all(bool(torch.all(p == 0)) for k, p in mod.named_parameters()) if zw is True
-                         else weights_are(mod, real.last_ref[0]) and weights_random(mod))
+                         else weights_random(mod) and weights_changed(mod, pre["module_w"]))
             ok = ok and all(so.nets_equal(net_snap(getattr(real.models[s], n)), snap) for (s, n), snap in pre["others"].items()
                             if s in real.models and n in real.models[s].networks)
             ctx.oracle("initialize_parameters: unchanged shapes, new storage, zero biases, weights redrawn (all zero only if THIS call "
                        "passes zero_weights=True), other networks untouched", ok, cs, detail={"zero_weights": zw, "shapes": shapes(mod)},
                        sig="initModule/redraw", theorem="C20_init_module")
             ctx.count(f"initModule_zw={zw}")
+            if zw is not True:
+                self.stream_point(real, [mod], cs, "initModule")
         if t == "constructFrom":
             mod = real.modules[op["mslot"]]
             bad = op["kind"] == "dens" and not hasattr(mod, "num_aux")
-            if bad:
-                ctx.oracle("DensityMatrix(module=BinaryRBM) is refused", err == "AttributeError", cs, detail={"err": err}, sig="constructFrom/wrong-module-type")
+            if bad:   # (only reachable from hand-written plans) not constrained by the property: informational
+                ctx.count(f"constructFrom:BinaryRBM->DensityMatrix={err}")
             else:
                 ok = err is None
                 if ok:
@@ -273,13 +313,17 @@ class Hooks:
             for j, n in enumerate(st.networks):
                 net = getattr(st, n)
                 ok = ok and shapes(net) == pre["shapes"][n] and biases_zero(net) and order_ok(net)
-                # redrawn: bit for bit the next N(0,1)/sqrt(n) draws of torch's generator, network by network — never zeros
-                ok = ok and weights_are(net, real.last_ref[j]) and weights_random(net)
+                # redrawn: never zeros, never the previous values (that they are the generator's next N(0,1)/sqrt(n) draws in W, U order is
+                # an AUXILIARY comparison, see stream_point: the property does not prescribe how the random stream is consumed)
+                ok = ok and weights_random(net)
                 ok = ok and not (set(ptrs(net)) & self.seen_ptrs)
                 ok = ok and all(not torch.equal(p, pre["nets"][n][k]) for k, p in net.named_parameters() if k.startswith("weights") and p.numel() > 0)
             if len(st.networks) == 2:
                 ok = ok and not (set(ptrs(st.rbm_am)) & set(ptrs(st.rbm_ph)))
+                ok = ok and all(not torch.equal(p, q) for (k, p), (_, q) in zip(st.rbm_am.named_parameters(), st.rbm_ph.named_parameters())
+                                if k.startswith("weights") and p.numel() > 0)    # the two networks are drawn independently
                 self.interesting.add(op["slot"])
+            self.stream_point(real, [getattr(st, n) for n in st.networks], cs, "reinit")
             ctx.oracle("reinitialise: every network gets fresh parameters (weights redrawn from the generator), unchanged shapes, zero biases", ok, cs,
                        detail={"weights_max_abs": {n: [float(p.abs().max()) if p.numel() else None for k, p in getattr(st, n).named_parameters()
                                                        if k.startswith("weights")] for n in st.networks}},
@@ -289,19 +333,38 @@ class Hooks:
             two = len(st.networks) == 2
             if two and not op["bases"]:
                 same = all(so.nets_equal(net_snap(getattr(st, n)), pre["nets"][n]) for n in st.networks)
-                ctx.oracle("fit without bases is refused before anything changes", err == "ValueError" and same and not real.events, cs,
-                           detail={"err": err, "events": real.events[:5], "params_unchanged": same}, sig="fit/guard", theorem="C20_fit_guard")
+                fp = real.fit_probe
+                untouched = {
+                    "parameters": same,
+                    "parameter storages": all(ptrs(getattr(st, n)) == pre["ptrs"][n] for n in st.networks),
+                    "no callback event": not real.events and not self.batch_aux,
+                    "random generator state": bool(torch.equal(fp["rng_before"], fp["rng_after"])),
+                    "stop_training flag": fp["stop_before"] == fp["stop_after"],
+                    "data tensor": bool(torch.equal(fp["data"][0], fp["data"][1])),
+                    "bases array": bool(np.array_equal(fp["bases"][0], fp["bases"][1])),
+                }
+                # "refused": some exception (its type is not part of the property); "before anything changes": everything observable
+                ctx.oracle("fit without bases is refused before anything changes (parameters, storages, callbacks, RNG state, stop flag, inputs)",
+                           err is not None and all(untouched.values()), cs,
+                           detail={"err": err, "events": real.events[:5], "changed": [k for k, v in untouched.items() if not v]},
+                           sig="fit/guard", theorem="C20_fit_guard")
                 ctx.count("fit_guard")
             else:
                 ctx.oracle("fit runs", err is None, cs, detail={"err": err}, sig="fit/runs")
                 if isinstance(st, DensityMatrix) and bool(torch.all(pre["nets"]["rbm_ph"]["aux_bias"] == 0)):
                     z = bool(torch.all(st.rbm_ph.aux_bias == 0))
-                    ctx.oracle("phase auxiliary bias stays exactly zero through training", z, cs,
-                               detail={"aux_bias": st.rbm_ph.aux_bias.tolist(), "opt": op.get("opt")}, sig="fit/phase-aux-bias", theorem="C20_phase_aux_bias_zero")
-                    ctx.count("aux_bias_checked")
+                    bad_batches = [(ep, b, v) for ep, b, v in self.batch_aux if v != 0.0]
+                    nb = len([e for e in real.events if e == "batch_end"])
+                    ctx.oracle("phase auxiliary bias is exactly zero after EVERY batch of the fit and at its end", z and not bad_batches and len(self.batch_aux) == nb, cs,
+                               detail={"aux_bias": st.rbm_ph.aux_bias.tolist(), "opt": op.get("opt"), "sched": op.get("sched"), "first_bad_batch": bad_batches[:1],
+                                       "batches_seen": len(self.batch_aux), "batch_end_events": nb},
+                               sig="fit/phase-aux-bias", theorem="C20_phase_aux_bias_zero_any_rule, C20_phase_aux_bias_zero_torch_rules, C20_phase_aux_grad_zero")
+                    ctx.count("aux_bias_checked"); ctx.count("aux_bias_batches_checked", len(self.batch_aux))
+                elif isinstance(st, DensityMatrix):
+                    ctx.count("aux_bias_nonzero_start(module-built; outside the clause)")
                 if two and op["slot"] in self.interesting and err is None:
                     self.nontrivial = True
-                ctx.count(f"opt={op.get('opt')}")
+                ctx.count(f"opt={op.get('opt')}"); ctx.count(f"sched={op.get('sched')}")
 
 
 def level_fn(op, err):
@@ -344,6 +407,20 @@ def grad_case(ctx, case):
     g = st.gradient(v, bases=bases)
     blocks["gradient(samples, bases)[1]"] = g[1][-A:] if A else torch.zeros(0)
     blocks["positive_phase_gradients[1]"] = st.positive_phase_gradients(v, bases_batch=bases)[1][-A:] if A else torch.zeros(0)
+    # scope of the clause (C20 audit item 4): a phase network may carry a NON-zero aux bias (module-built states copy the module's);
+    # it must then be inert — rho / pi computed with it and with an all-zero one agree
+    if case["nonzero_d"] and A:
+        space = st.generate_hilbert_space()
+        r1, p1 = st.rho(space, space).clone(), st.pi(v, vp).clone()
+        saved = st.rbm_ph.aux_bias.data.clone()
+        st.rbm_ph.aux_bias.data.zero_()
+        r0, p0_ = st.rho(space, space), st.pi(v, vp)
+        st.rbm_ph.aux_bias.data.copy_(saved)
+        same = bool(torch.allclose(r1, r0, rtol=1e-9, atol=1e-12)) and bool(torch.allclose(p1, p0_, rtol=1e-9, atol=1e-12))
+        ctx.oracle("rho(space, space) and pi do not depend on the phase network's auxiliary bias", same, case,
+                   detail={"max_abs_diff_rho": float((r1 - r0).abs().max()), "aux_bias": saved.tolist()}, sig="auxgrad/phase-aux-bias-unused",
+                   theorem="C20_phase_aux_bias_unused")
+        ctx.count("phase_aux_bias_unused_checked")
     ctx.case(case, nontrivial=A > 0 and nh != nv, sample={"grad_case": case})
     ctx.count("grad_cases")
     for name, blk in blocks.items():
@@ -407,6 +484,87 @@ def gen_optim(rng):
     return {"type": "optim", "kind": kind, "hp": hp, "p0": p0, "grads": grads}
 
 
+# ---------------------------------------------------------------- the seven torch rules of QV.Model.Optim, with a changing learning rate
+RULES = {
+    "sgd": (torch.optim.SGD, {"momentum": [0.0, 0.5, 0.9], "dampening": [0.0, 0.3], "nesterov": [False, True]}),
+    "adam": (torch.optim.Adam, {"beta1": [0.9, 0.5], "beta2": [0.999, 0.9], "eps": [1e-8], "decoupled": [False, True], "amsgrad": [False, True]}),
+    "adadelta": (torch.optim.Adadelta, {"rho": [0.9, 0.5], "eps": [1e-6]}),
+    "adagrad": (torch.optim.Adagrad, {"lr_decay": [0.0, 0.1], "eps": [1e-10], "initial_accumulator_value": [0.0, 0.5]}),
+    "rmsprop": (torch.optim.RMSprop, {"alpha": [0.99, 0.5], "eps": [1e-8], "momentum": [0.0, 0.9], "centered": [False, True]}),
+    "adamax": (torch.optim.Adamax, {"beta1": [0.9, 0.5], "beta2": [0.999, 0.9], "eps": [1e-8]}),
+    "nadam": (torch.optim.NAdam, {"beta1": [0.9, 0.5], "beta2": [0.999, 0.9], "eps": [1e-8], "momentum_decay": [0.004, 0.1], "decoupled": [False, True]}),
+}
+
+
+def torch_args(kind, hp):
+    a = {k: v for k, v in hp.items() if k not in ("beta1", "beta2", "decoupled", "wd")}
+    a["weight_decay"] = hp["wd"]
+    if "beta1" in hp:
+        a["betas"] = (hp["beta1"], hp["beta2"])
+    if "decoupled" in hp:
+        a["decoupled_weight_decay"] = hp["decoupled"]
+    if kind == "sgd" and hp.get("nesterov") and (hp["momentum"] <= 0 or hp["dampening"] != 0):
+        a["nesterov"] = False
+    return a
+
+
+def rule_case(ctx, case):
+    """one coordinate under a torch optimizer whose learning rate is changed before every step (what a scheduler does), next to a second
+    coordinate with non-zero gradients in the same parameter group; vs `Rule.trace` of the model (c20.rule)"""
+    kind, hp, p0, grads, lrs = case["kind"], dict(case["hp"]), case["p0"], case["grads"], case["lrs"]
+    cls = RULES[kind][0]
+    ta = torch_args(kind, hp)
+    hp["nesterov"] = ta.get("nesterov", False) if kind == "sgd" else hp.get("nesterov")
+    p = torch.nn.Parameter(torch.tensor([p0, 0.7], dtype=torch.double), requires_grad=False)
+    opt = cls([p], lr=lrs[0], **ta)
+    out = []
+    for g, lr in zip(grads, lrs):
+        for grp in opt.param_groups:
+            grp["lr"] = lr
+        opt.zero_grad()
+        p.grad = torch.tensor([g, 0.3 - g], dtype=torch.double)
+        opt.step()
+        out.append(float(p.data[0]))
+    zero = p0 == 0.0 and all(g == 0.0 for g in grads)
+    ctx.case(case, nontrivial=True, sample={"rule_case": {"kind": kind, "hp": hp, "steps": len(grads), "zero": zero}})
+    ctx.count(f"rule={kind}{'/zero' if zero else ''}")
+    th = "C20_phase_aux_bias_zero_torch_rules, C20_phase_aux_bias_zero_any_rule"
+    if zero:
+        ctx.oracle(f"torch.optim.{cls.__name__}: a zero coordinate with zero gradients is exactly zero after every step (learning rate changing)",
+                   all(x == 0.0 for x in out), case, detail={"values": out}, sig=f"rule/{kind}/zero-stays-zero", theorem=th)
+    if ctx.driver is not None:
+        args = {k: (f2b(v) if not isinstance(v, bool) else v) for k, v in hp.items() if v is not None}
+        r = ctx.driver.call("c20.rule", kind=kind, p0=f2b(p0), grads=[f2b(g) for g in grads], lrs=[f2b(x) for x in lrs], **args)
+        # torch keeps NAdam's running product of momentum coefficients (`mu_product`) in float32: its coefficients carry a relative error of
+        # ~1e-7 that the float64 model does not have -> looser tolerance for that rule's non-zero trajectories (the zero case is exact)
+        tol = {"rtol": 1e-4, "atol": 1e-6} if kind == "nadam" and not zero else {}
+        ctx.point(f"rule.{kind}", "property" if zero else "aux", out, unbits(r).tolist(), case, scale=max([abs(p0)] + [abs(x) for x in out] + [1e-30]),
+                  sig=f"rule/{kind}", theorem=th + " (update rule)", **tol)
+
+
+def gen_rule(rng):
+    kind = rng.choice(sorted(RULES))
+    hp = {k: rng.choice(v) for k, v in RULES[kind][1].items()}
+    hp["wd"] = rng.choice([0.0, 0.05, 0.5])
+    hp["maximize"] = rng.random() < 0.25
+    zero = rng.random() < 0.45
+    steps = rng.randint(1, 8)
+    lr0 = rng.choice([0.01, 0.1, 1.0])
+    lrs = [lr0 * (0.5 ** (i // 2)) for i in range(steps)] if rng.random() < 0.6 else [lr0] * steps
+    return {"type": "rule", "kind": kind, "hp": hp, "p0": 0.0 if zero else rng.gauss(0, 1),
+            "grads": [0.0 if zero else rng.gauss(0, 1) for _ in range(steps)], "lrs": lrs}
+
+
+def wrong_module_probe(ctx):
+    """DensityMatrix(module=BinaryRBM): the property does not say what happens — the outcome is recorded, never judged"""
+    from .qc import BinaryRBM
+    try:
+        DensityMatrix(2, module=BinaryRBM(2, 2, gpu=False), gpu=False)
+        ctx.count("probe:DensityMatrix(module=BinaryRBM)=accepted")
+    except Exception as e:  # noqa: BLE001
+        ctx.count(f"probe:DensityMatrix(module=BinaryRBM)={type(e).__name__}")
+
+
 def gen_grad(rng):
     nv = rng.choice([1, 2, 3])
     return {"type": "grad", "nv": nv, "nh": rng.choice([1, 2, 4]), "na": rng.choice([1, 2, 3]), "nonzero_d": rng.random() < 0.3,
@@ -420,7 +578,7 @@ def fixed_cases():
         c(t="constructFrom", slot=0, kind="cplx", mslot=0, ud=None), c(t="write", slot=0, net="rbm_am"), c(t="write", slot=0, net="rbm_ph"),
         c(t="constructFrom", slot=1, kind="pos", mslot=0, ud=None), c(t="reinit", slot=1), c(t="writeModule", mslot=0),
         c(t="train", slot=0, bases=False, opt="sgd", epochs=1), c(t="train", slot=0, bases=False, opt="sgd", epochs=1, stopped=True), c(t="train", slot=0, bases=True, opt="nest", epochs=2, lr=0.5),
-        c(t="constructFrom", slot=2, kind="dens", mslot=0, ud=None), c(t="reinit", slot=0), c(t="write", slot=0, net="rbm_ph")]}
+        c(t="reinit", slot=0), c(t="write", slot=0, net="rbm_ph")]}
     yield {"type": "history", "tseed": 202, "plan": [
         c(t="mkModule", mslot=1, k="purif", nv=2, nh=1, na=3), c(t="writeModule", mslot=1),
         c(t="constructFrom", slot=0, kind="dens", mslot=1, ud=["S"]), c(t="train", slot=0, bases=True, opt="sgdm", epochs=2, lr=0.5),
@@ -449,6 +607,13 @@ def fixed_cases():
         c(t="constructFrom", slot=1, kind="cplx", mslot=2, ud=None), c(t="reinit", slot=1), c(t="initModule", mslot=2, zw=False)]}
 
 
+    # every optimizer of storeops.OPTIMS drives a mixed state whose phase aux bias starts at zero; every third fit with a scheduler
+    scheds = sorted(so.SCHEDULERS)
+    yield {"type": "history", "tseed": 205, "plan": [c(t="construct", slot=0, kind="dens", nv=2, nh=2, na=2, ud=None)] + [
+        dict(c(t="train", slot=0, bases=True, opt=o, epochs=2, lr=0.3), **({"sched": scheds[i % len(scheds)]} if i % 3 == 0 else {}))
+        for i, o in enumerate(sorted(so.OPTIMS))]}
+
+
 def gen_cases(ctx, thorough, scale=1):
     maxlen = 30 if thorough else 12
     nh, ng, no = ((250, 60, 300) if thorough else (40, 10, 50))
@@ -458,6 +623,8 @@ def gen_cases(ctx, thorough, scale=1):
         yield gen_grad(ctx.rng)
     for _ in range(no * scale):
         yield gen_optim(ctx.rng)
+    for _ in range(2 * no * scale):
+        yield gen_rule(ctx.rng)
 
 
 def one_case(ctx, case):
@@ -465,12 +632,15 @@ def one_case(ctx, case):
         one_history(ctx, case)
     elif case["type"] == "grad":
         grad_case(ctx, case)
+    elif case["type"] == "rule":
+        rule_case(ctx, case)
     else:
         optim_case(ctx, case)
 
 
 def run(ctx):
     ctx.rule = RULE
+    wrong_module_probe(ctx)
     for case in fixed_cases():
         one_case(ctx, case)
     for case in gen_cases(ctx, ctx.tier == "thorough"):
